@@ -17,6 +17,10 @@ CHECKS = [
       technique="exhaustive product flags x core functions x argument shapes x thread, judged by a libc interposer on the real interpreter",
       text="Exhaustive product of capability configurations (each flag, each group, all pairs in the thorough tier) x every function binding of the core environment (enumerated at run time) x argument tuples of length 0..2 over an 18-shape menu x {calling thread, thread started after sandboxing}. Every libc entry made by janet's own objects is intercepted with -Wl,--wrap and classified; a call whose class is disabled in the calling thread's flag word is a violation whatever the function returned. Plus all ordered pairs of sandbox options for monotonicity.",
       note="Trusted: the classification table in engine/harness/sbxwrap.c; calls made by libc on its own behalf are not attributed to janet; opening /dev/urandom for os/cryptorand is not counted as a file-system read; os/environ and raw-pointer FFI use are outside what a libc interposer can see. 25 functions are never called (props/C18/check.py BLOCK, with reasons)."),
+ dict(id="C20",
+      technique="exhaustive enumeration of task programs with known completions (process-level, virtual time) + exhaustive cycle/pair repetition with resource-counter comparison",
+      text="Termination: every program of a task grammar (1-3 tasks x operation sequences over sleep, waiting thread call, detached thread + thread channel, subprocess spawn+wait, os/execute, firing and non-firing deadlines, timed-out stream read x 6 link kinds: channel, pipe, thread channel, cancel of a channel wait, cancel of a stream read) is run as a stand-alone process of the real interpreter under virtual time; it must exit by itself with status 0 and must have printed every expected completion line. Steady state: each of 24 operation cycles and every ordered pair is repeated n, 2n, 4n times; descriptors, child processes, threads, GC roots, heap blocks, timer-heap size and listener count (read from janet_vm and /proc) must not grow in proportion to the repetitions, and the pending-work counters must be zero when nothing is outstanding.",
+      note="Trusted: virtual time waits for live OS threads before jumping; subprocess exit and thread completion timing are the kernel's (exhaustive over programs, not over kernel interleavings); a constant growth (caches) is not a leak, only growth proportional to n at two scales."),
 ]
 _ALL = ["C%02d" % i for i in range(1, 21)]
 def _na():
